@@ -271,36 +271,35 @@ Definition check_valid (now : N) (b : bundle) : bool :=
   && negb (lifetime_exceeded now b).
 
 (* ---------------- bundle ---------------- *)
+Definition starts_with (x : N) (bs : list N) : bool :=
+  match bs with b :: _ => b =? x | [] => false end.
+
 Fixpoint dec_blocks (fuel : nat) (bs : list N) (acc : list cblock) : option (list cblock * list N) :=
   match fuel with
   | O => None
   | S fuel =>
-      match bs with
-      | 255 :: r => Some (acc, r)
-      | _ =>
-          match dec_cblock bs with
-          | Ok c r => dec_blocks fuel r (acc ++ [c])
-          | Brk => Some (acc, [])      (* break flag met inside a block: the bundle ends there *)
-          | Err => None
-          end
-      end
+      if starts_with 255 bs then Some (acc, tl bs)
+      else
+        match dec_cblock bs with
+        | Ok c r => dec_blocks fuel r (acc ++ [c])
+        | Brk => Some (acc, [])      (* break flag met inside a block: the bundle ends there *)
+        | Err => None
+        end
   end.
 
 Definition dec_bundle (now : N) (bs : list N) : option (bundle * list N) :=
-  match bs with
-  | 159 :: r =>
-      match nobrk (dec_primary r) with
-      | Ok p r =>
-          match dec_blocks (S (length r)) r [] with
-          | Some (bl, rest) =>
-              let b := {| b_pri := p; b_blocks := bl |} in
-              if check_valid now b then Some (b, rest) else None
-          | None => None
-          end
-      | _ => None
-      end
-  | _ => None
-  end.
+  if starts_with 159 bs then
+    match nobrk (dec_primary (tl bs)) with
+    | Ok p r =>
+        match dec_blocks (S (length r)) r [] with
+        | Some (bl, rest) =>
+            let b := {| b_pri := p; b_blocks := bl |} in
+            if check_valid now b then Some (b, rest) else None
+        | None => None
+        end
+    | _ => None
+    end
+  else None.
 
 (* bundle ID as printed by BundleID.String *)
 Definition id_str (b : bundle) : list N :=
